@@ -10,7 +10,27 @@ type checkFn func(prop, tier string) int
 
 var registry = map[string]checkFn{}
 
+// ensureEnv makes the process (and every child) use a Go toolchain that can build /repo, offline; it mirrors
+// env.sh so that the binary also works when started directly.
+func ensureEnv() {
+	for _, c := range []string{os.Getenv("GOROOT_MOQ"), "/root/go/pkg/mod/golang.org/toolchain@v0.0.1-go1.24.0.linux-amd64", "/opt/veriftools/go1.26.8"} {
+		if c == "" {
+			continue
+		}
+		if _, err := os.Stat(c + "/bin/go"); err == nil {
+			os.Setenv("PATH", c+"/bin:"+os.Getenv("PATH"))
+			os.Setenv("GOROOT_MOQ", c)
+			break
+		}
+	}
+	os.Unsetenv("GOROOT")
+	for k, v := range map[string]string{"GOTOOLCHAIN": "local", "GOPROXY": "off", "GOSUMDB": "off", "GOFLAGS": "-mod=mod", "GOTELEMETRY": "off"} {
+		os.Setenv(k, v)
+	}
+}
+
 func main() {
+	ensureEnv()
 	if len(os.Args) < 3 {
 		fmt.Fprintln(os.Stderr, "usage: vcheck <property> <quick|thorough>   |   vcheck replay <dir>")
 		os.Exit(3)
